@@ -91,6 +91,7 @@ impl FramedReader {
 //@|        r matches Err(RequestError::BadFrame(e)) ==> old(self).parser.spec_next(old(self).logical() + old(io).pending) == crate::spec::StreamNext::Bad(e),
 //@|        r matches Err(RequestError::Io(k)) ==> final(self).logical() + final(io).pending =~= old(self).logical() + old(io).pending,
 //@|        !(r matches Err(RequestError::Internal(_))),
+//@|        r is Err ==> (r->Err_0 is BadFrame || r->Err_0 is Io),
 //@loop 0|            invariant self.wf(), self.parser.same_kind(&old(self).parser), io.sent == old(io).sent,
 //@loop 0|                self.logical() + io.pending =~= old(self).logical() + old(io).pending,
 //@loopstart 0| broadcast use crate::spec::lemmas::lemma_add_assoc; self.parser.lemma_prefix_stable(self.logical(), io.pending);
